@@ -53,7 +53,7 @@ WellFormed ==
                /\ o.exit \in {0, 1, 64, 65}
                /\ (o.exit = 0 =>
                      /\ (Present(cfg.aopt) => o.area.origin = "usuario")
-                     /\ (~Present(cfg.aopt) /\ Present(cfg.ameta) => o.area.origin = "metadatos" /\ o.area.milli = 4000)
+                     /\ (~Present(cfg.aopt) /\ Present(cfg.ameta) => o.area.origin = "metadatos" /\ o.area.milli = 4750)
                      /\ (~Present(cfg.aopt) /\ ~Present(cfg.ameta) => o.area.origin = "predefinido" /\ o.area.milli = 1000)
                      /\ o.area.milli > 1 /\ o.kexp.milli >= 0 /\ o.kexp.milli <= 1000
                      /\ (cfg.ffile => o.fp.origin = "archivo")
